@@ -44,3 +44,65 @@ From Trans Require Spec Equiv.
 Theorem C06_nextTopicLevel_is_model : Trans.Spec.T_nextTopicLevel.
 Proof. exact Trans.Equiv.nextTopicLevel_equiv. Qed.
 Print Assumptions C06_nextTopicLevel_is_model.
+
+From Topics Require SpecTotal ProofsTotal.
+
+(* THE WHOLE INPUT SPACE.  What the splitter makes of ANY string, in closed form: an empty level that is not the last becomes "+", a trailing empty level is dropped, and a string is refused exactly when a non-empty level misuses a wildcard, starts with $ or # is not last *)
+Theorem C06_qlevels_closed_form : Topics.SpecTotal.C06_qlevels_closed_form.
+Proof. exact Topics.ProofsTotal.qlevels_closed_form. Qed.
+Print Assumptions C06_qlevels_closed_form.
+
+(* after ANY history of operations on ANY byte strings (no domain restriction), the subscribers reported for any name the splitter accepts are exactly the abstract subscriptions - keyed by the levels the splitter produces - that match those levels: finding F7 is stated exactly, not excluded *)
+Theorem C06_subscribers_total : Topics.SpecTotal.C06_subscribers_total.
+Proof. exact Topics.ProofsTotal.subscribers_total. Qed.
+Print Assumptions C06_subscribers_total.
+
+(* an invalid QoS is refused before anything is looked at *)
+Theorem C06_subscribers_invalid_qos : Topics.SpecTotal.C06_subscribers_invalid_qos.
+Proof. exact Topics.ProofsTotal.subscribers_invalid_qos. Qed.
+Print Assumptions C06_subscribers_invalid_qos.
+
+(* a name the splitter refuses: whenever the traversal returns at all, it returns the matches of the walked prefix *)
+Theorem C06_subscribers_refused_name : Topics.SpecTotal.C06_subscribers_refused_name.
+Proof. exact Topics.ProofsTotal.subscribers_refused_name. Qed.
+Print Assumptions C06_subscribers_refused_name.
+
+(* the result of Subscribe for every history and every argument *)
+Theorem C06_subscribe_result_total : Topics.SpecTotal.C06_subscribe_result_total.
+Proof. exact Topics.ProofsTotal.subscribe_result_total. Qed.
+Print Assumptions C06_subscribe_result_total.
+
+(* the result of Unsubscribe with a subscriber, for every history and every string *)
+Theorem C06_unsubscribe_result_total : Topics.SpecTotal.C06_unsubscribe_result_total.
+Proof. exact Topics.ProofsTotal.unsubscribe_result_total. Qed.
+Print Assumptions C06_unsubscribe_result_total.
+
+(* (with the nil subscriber the boolean reports whether a trie node exists - path nodes of refused filters included - not whether somebody held the filter) *)
+Theorem C06_unsubscribe_nil_result_witness : Topics.SpecTotal.C06_unsubscribe_nil_result_witness.
+Proof. exact Topics.ProofsTotal.unsubscribe_nil_result_witness. Qed.
+Print Assumptions C06_unsubscribe_nil_result_witness.
+
+(* on the domain of the section-4.7 theorem the total statement coincides with it *)
+Theorem C06_total_extends_partial : Topics.SpecTotal.C06_total_extends_partial.
+Proof. exact Topics.ProofsTotal.total_extends_partial. Qed.
+Print Assumptions C06_total_extends_partial.
+
+(* ... and implies it *)
+Theorem C06_total_implies_partial : Topics.SpecTotal.C06_total_implies_partial.
+Proof. exact Topics.ProofsTotal.total_implies_partial. Qed.
+Print Assumptions C06_total_implies_partial.
+
+(* retained messages, for every history and every accepted filter: one slot per produced level list *)
+Theorem C06_retained_total : Topics.SpecTotal.C06_retained_total.
+Proof. exact Topics.ProofsTotal.retained_total. Qed.
+Print Assumptions C06_retained_total.
+
+(* two names with the same produced levels share one retained slot ("/b" and "+/b"; an empty payload on "/b/" clears it) *)
+Theorem C06_retained_slot_sharing : Topics.SpecTotal.C06_retained_slot_sharing.
+Proof. exact Topics.ProofsTotal.retained_slot_sharing. Qed.
+Print Assumptions C06_retained_slot_sharing.
+
+(* shape of the abstract list: one entry per (subscriber, levels), never the nil subscriber, # only last *)
+Theorem C06_aq_run_shape : Topics.SpecTotal.C06_aq_run_shape.
+Proof. exact Topics.ProofsTotal.aq_run_shape. Qed.
+Print Assumptions C06_aq_run_shape.
